@@ -9,7 +9,15 @@ from ..check import VERIF, unjson
 from ..kj import read_tree, scratch, splice, tabnorm, write_tree
 from . import c01
 
+from ..manifest_data import PRES_NOTE  # noqa: E402
+
 LEVEL = "proof"
+
+MANIFEST = {
+    "technique": 'Coq proof (frame lemma over the per-file fold) + differential correspondence on adversarial file names',
+    "text": "Theorem C04_confined: what is written for a file depends on that file's fresh lines and old content only, for all file names; C04_exactly_once for whole directories.",
+    "note": PRES_NOTE,
+}
 RULE = ("(a) synthetic code models over an adversarial pool of file names (X.py/TestX.py, Foo.h/IFoo.h/oo.h/h, a/Foo.h, b/Foo.h, "
         "a/b/Foo.h ...) sharing tag names, pre-existing directory content incl. unrelated files, run through the real "
         "preserve_usercode_in_files+createoutput, compared with the Coq model and with the per-file oracle; (b) two state machines whose "
